@@ -31,6 +31,7 @@ type mpCase struct {
 	parts         []part
 	corrupt       string // "", or the kind of MIME-level corruption applied to the assembled body
 	noTmp         bool   // TMPDIR points to a directory that does not exist
+	truncAt       int
 	ctHeader      string // Content-Type of the request
 	desc          string
 }
@@ -210,6 +211,10 @@ func (c *mpCase) run(tmpdir string) {
 	switch c.corrupt {
 	case "truncate":
 		body = body[:len(body)*2/3]
+	case "truncate-at":
+		if c.truncAt < len(body) {
+			body = body[:c.truncAt]
+		}
 	case "truncate-tail":
 		body = body[:len(body)-tail]
 	case "garbage":
@@ -587,7 +592,7 @@ func mpMode(r *rng.R, n int, tmpdir string) {
 				continue
 			}
 			for _, ch := range []bool{false, true} {
-				for _, mm := range []int64{0, 1} {
+				for _, mm := range []int64{0, 1, -5} {
 					cc := *c
 					cc.maxUp = lim
 					cc.maxMem = mm
@@ -595,6 +600,17 @@ func mpMode(r *rng.R, n int, tmpdir string) {
 					cc.desc = fmt.Sprintf("limit-sweep-%d", lim-total)
 					cc.run(tmpdir)
 				}
+			}
+		}
+		// truncated bodies (client hangs up): every 5th offset, in memory and spilling
+		for at := 0; at < int(total); at += 5 {
+			for _, mm := range []int64{0, 1} {
+				cc := *c
+				cc.maxMem = mm
+				cc.corrupt = "truncate-at"
+				cc.truncAt = at
+				cc.desc = fmt.Sprintf("truncate-at-%d", at)
+				cc.run(tmpdir)
 			}
 		}
 	}
